@@ -85,7 +85,10 @@ def suite_sigma(ctx, case):
     sys_ = pyPRISM.System(['A', 'B'], kT=kT)
     sys_.domain = pyPRISM.Domain(length=L, dr=dr)
     sys_.density['A'] = 0.1; sys_.density['B'] = 0.2
-    sys_.diameter['A'] = d1; sys_.diameter['B'] = d2
+    for (t, v) in case.get('pre', []):
+        sys_.diameter[t] = v                      # earlier values of a size scan (any order); the final ones follow
+    for t, v in (case.get('order') or [['A', d1], ['B', d2]]):
+        sys_.diameter[t] = v
     sys_.omega[['A', 'B'], ['A', 'B']] = pyPRISM.omega.SingleSite()
     sys_.omega['A', 'B'] = pyPRISM.omega.NoIntra()
     sys_.closure[['A', 'B'], ['A', 'B']] = pyPRISM.closure.PercusYevick()
@@ -174,7 +177,7 @@ def gen_eval(rng, maxL):
     pot = rng.choice(['hs', 'exp', 'lj', 'ljcut', 'ljshift', 'hclj', 'wca'])
     eps = round(rng.choice([rng.uniform(0.1, 3.0), -rng.uniform(0.1, 3.0), 10 ** rng.uniform(-3, 1)]), 5)
     if pot == 'wca' and rng.random() < 0.8: eps = abs(eps)
-    p = {'sigma': sigma, 'eps': eps, 'high': rng.choice([1e6, 1e5, 1e3, 50.0]), 'alpha': round(rng.uniform(0.1, 3.0), 4)}
+    p = {'sigma': sigma, 'eps': eps, 'high': rng.choice([1e6, 1e5, 1e3, 50.0]), 'alpha': rng.choice([round(rng.uniform(0.1, 3.0), 4), round(rng.uniform(0.1, 3.0), 4), 2.0 ** -7, 1e-3, sigma / 2000.0])}
     if pot in ('ljcut', 'ljshift'):
         p['rcut'] = rng.choice([sigma * rng.uniform(0.5, 0.99), sigma, sigma * rng.uniform(1.01, 3.0), r[rng.randrange(len(r))], 2.5 * sigma])
     extra = [sigma * (1 - 1e-12), sigma, sigma * (1 + 1e-12)]
@@ -211,5 +214,9 @@ def generate(ctx):
             d1 = float(pyPRISM.Domain(length=L, dr=dr).r[0]) * 0 + m * dr
             d2 = (m + 2 * rng.randrange(0, 3)) * dr
             case = {'L': L, 'dr': dr, 'd': [d1, d2], 'kT': rng.choice([1.0, 0.5, 2.0]), 'explicit': rng.choice([None, None, (m + 1) * dr])}
+            c0 = rng.random()
+            if c0 < 0.3: case['pre'] = [['A', 3 * dr], ['B', 5 * dr]]; case['order'] = rng.choice([[['A', d1]], [['B', d2], ['A', d1]], [['A', d1], ['B', d2]]])
+            if case.get('order') == [['A', d1]]: case['d'] = [d1, 5 * dr]
+            elif c0 < 0.45: case['order'] = [['B', d2], ['A', d1]]
             ctx.case('sigma', case, True, tags=['sigma-suite dr=%g' % dr])
             suite_sigma(ctx, case)
